@@ -31,6 +31,8 @@ class TT(T):
             return "&%s %s" % (self.extra, self.args[0].rust())
         if k == "constarray":
             return "[%s; %s]" % (self.args[0].rust(), self.extra)
+        if k == "bracearray":
+            return "[%s; { %s }]" % (self.args[0].rust(), self.extra[0])
         return T.rust(self)
 
 
@@ -49,6 +51,8 @@ def src_text(t):
         return "&%s %s" % (t.extra, src_text(t.args[0]))
     if k == "constarray":
         return "[%s; %s]" % (src_text(t.args[0]), t.extra)
+    if k == "bracearray":
+        return "[%s; { %s }]" % (src_text(t.args[0]), t.extra[0])
     if not t.args:
         return T.rust(t)
     # rebuild using T.rust on a shallow copy whose args are raw texts
@@ -73,6 +77,8 @@ def subst(t, env, self_concrete):
         return T("ref", [subst(t.args[0], env, self_concrete)])
     if k == "constarray":
         return T("array", [subst(t.args[0], env, self_concrete)], env[t.extra])
+    if k == "bracearray":
+        return T("array", [subst(t.args[0], env, self_concrete)], t.extra[1])
     return T(t.kind, [subst(a, env, self_concrete) for a in t.args], t.extra)
 
 
@@ -129,8 +135,22 @@ class DefGen:
         return out
 
     # ------------------------------------------------------------------ field types
+    WRAPPERS = ("box", "rc", "arc", "ref", "refmut", "lt_ref", "paren")
+
     def field_type(self, tparams, selfname, lifetimes, consts, value_mode, depth=2):
         t = self.field_type0(tparams, selfname, lifetimes, consts, value_mode, depth)
+        # a member declared as a transparent wrapper of PhantomData (`Rc<PhantomData<T>>`) is asserted neither way (erased or kept):
+        # such members are kept out of the grammar, the marker itself takes their place
+        u = t
+        while u.kind in self.WRAPPERS and u.args:
+            u = u.args[0]
+        if u is not t and u.kind == "phantom":
+            t = u
+        if self.r2.random() < 0.04:
+            # an array whose length is a braced block expression (the braces are part of the declared type's text)
+            self.stat("array_length_in_braces")
+            txt, val = self.r2.choice([("2 + 1", 3), ("4", 4), ("1 << 2", 4), ("{ 2 }", 2), ("usize::MIN + 2", 2)])
+            return mk("bracearray", [self.r2.choice([U8, U16, BOOL])], (txt, val))
         if self.r2.random() < 0.05:
             # a real member whose type only shares its name with core's marker
             self.stat("member_of_user_type_named_PhantomData")
@@ -462,6 +482,19 @@ class DefGen:
                         # wrappers of PhantomData are a grey zone of C17, keep them out of instantiations
                         if env[p].shallow() != "PhantomData":
                             break
+                    def wraps(t, top=True):
+                        # a transparent wrapper of the parameter somewhere at the top of a member or tuple-member type
+                        if t.kind in self.WRAPPERS and t.args:
+                            u = t
+                            while u.kind in self.WRAPPERS and u.args:
+                                u = u.args[0]
+                            if u.kind == "param" and u.extra == p:
+                                return True
+                        return any(wraps(a, False) for a in t.args)
+                    if self.r2.random() < 0.06 and not any(wraps(f["ft"]) for f in self.all_fields(d)):
+                        # ... but PhantomData itself is an ordinary argument: the parameter carries its type id, members declared `T` are erased
+                        env[p] = T("phantom", [self.r2.choice([U8, STRING, T("vec", [U16])])])
+                        self.stat("parameter_instantiated_with_PhantomData")
             for c in d["consts"]:
                 env[c] = r.choice([0, 1, 2, 3, 5])
             key = tuple((k, v.rust() if isinstance(v, T) else v) for k, v in sorted(env.items()))
@@ -775,6 +808,161 @@ class DefGen:
             t.add("const_param")
         return ",".join(sorted(t))
 
+    def shapes_of(self, d):
+        """fine-grained shape features of one definition (used for the coverage floor of the generated corpus)"""
+        s = set()
+        fs = self.all_fields(d)
+
+        def mentions_user_phantom(t):
+            return (t.kind == "def" and isinstance(t.extra, dict) and t.extra.get("path", "").endswith("units::PhantomData")) or any(mentions_user_phantom(a) for a in t.args)
+        for f in fs:
+            if f["skip"]:
+                s.add("field_skip")
+            if f["compact"]:
+                s.add("compact_param" if f.get("compact_param") else "compact")
+                if f["ft"].kind == "prim" and f["ft"].extra in ("u64", "u128"):
+                    s.add("compact_wide")
+            if f["encoded_as"]:
+                s.add("encoded_as_qualified" if f["encoded_as"].startswith("<") else "encoded_as_compact")
+            if f["rename"] is not None:
+                s.add("rename")
+                if f["compact"] or f["encoded_as"]:
+                    s.add("rename_with_codec_attr")
+            if f["docs"]:
+                s.add("member_docs")
+                if f["name"] is None:
+                    s.add("unnamed_member_docs")
+            if f["ft"].kind == "phantom":
+                s.add("phantom_member")
+            if self.has_self(f["ft"]):
+                s.add("recursive")
+            if mentions_user_phantom(f["ft"]):
+                s.add("user_type_named_phantomdata")
+            if f["ft"].kind == "paren":
+                s.add("paren")
+
+            def leaves(t):
+                if t.kind in ("prim", "nonzero"):
+                    s.add("leaf_" + t.extra)
+                elif t.kind in ("string", "str_ref", "duration", "char", "unit", "cow_str", "lt_str", "lt_cow"):
+                    s.add("leaf_" + t.kind)
+                elif t.kind in ("compact", "range", "rangeinc", "btreemap", "btreeset", "binaryheap", "vecdeque", "result", "option", "cow", "cow_slice", "bracearray", "constarray", "rc", "arc", "refmut"):
+                    s.add("ctor_" + t.kind)
+                for a in t.args:
+                    leaves(a)
+            if not f["skip"]:
+                leaves(f["ft"])
+            if f["ft"].has_bitvec():
+                s.add("bitvec_member")
+        lists = [d["fields"]] if d["kind"] == "struct" else [v["fields"] for v in d["variants"]]
+        for l in lists:
+            live = [f for f in l if not f["skip"]]
+            for i, f in enumerate(live):
+                if f["ft"].kind == "phantom" and i + 1 < len(live) and any(g["ft"].kind != "phantom" for g in live[i + 1:]):
+                    s.add("phantom_then_real_member")
+            if any(f["skip"] for f in l) and any(not f["skip"] for f in l[1:]):
+                s.add("skip_then_real_member")
+        sampleable = d["value"] and any(not any(isinstance(v, T) and v.kind == "raw" and v.extra == "NoInfo" for v in env.values()) for env in d.get("insts", [{}]))
+        if sampleable:
+            s.add("sampleable")
+        if d["kind"] == "enum":
+            pos = 0
+            for v in d["variants"]:
+                if not v["skip"]:
+                    # the index a decoder must find differs from the variant's position, and comes from the discriminant alone
+                    if v["discr"] is not None and v["index"] is None and v["discr"] != pos and sampleable:
+                        s.add("discriminant_decides_index_of_data_variant" if v["fields"] else "discriminant_decides_index_of_unit_variant")
+                    if v["index"] is not None and v["index"] != pos and sampleable:
+                        s.add("index_attribute_decides_index")
+                    if v["index"] is not None and v["discr"] is not None and v["index"] != v["discr"] and sampleable:
+                        s.add("index_attribute_beats_discriminant")
+                    pos += 1
+            for v in d["variants"]:
+                if v["skip"]:
+                    s.add("variant_skip")
+                    if v["index"] is not None:
+                        s.add("variant_skip_and_index")
+                if v["index"] is not None:
+                    s.add("index")
+                if v["discr"] is not None:
+                    s.add("discriminant_on_data_variant" if v["fields"] else "discriminant_fieldless")
+                if v["shape"] == "named":
+                    s.add("variant_named")
+                if v["shape"] == "tuple":
+                    s.add("variant_tuple")
+        else:
+            s.add("struct_" + d["shape"])
+        if d["tparams"]:
+            s.add("generic")
+        if len(d["tparams"]) >= 2:
+            s.add("generic2")
+        if d["lifetimes"]:
+            s.add("lifetime")
+        if len(d["lifetimes"]) > 1:
+            s.add("lifetimes_related")
+        if d["consts"]:
+            s.add("const_param")
+        if d["replace"]:
+            s.add("replace_segment")
+            segs = MOD_PREFIX + d["mod"] + [d["name"]]
+            if any(segs.count(a) > 1 for a, _ in d["replace"]):
+                s.add("replace_segment_that_occurs_twice")
+            if any(a == d["name"] for a, _ in d["replace"]):
+                s.add("replace_own_name")
+            if any(b.startswith("r#") for a, b in d["replace"] if a in segs):
+                s.add("replace_with_raw_identifier")
+        if any(isinstance(v, T) and v.kind == "phantom" for env in d.get("insts", []) for v in env.values()):
+            s.add("parameter_instantiated_with_PhantomData")
+        # the shared PhantomData placeholder really enters the registry of a sampleable instantiation (as the type of a
+        # non-skipped parameter, or below the top of a member's type), and other types are met after it
+        for env in d.get("insts", []):
+            if any(isinstance(v, T) and v.kind == "raw" for v in env.values()):
+                continue
+            if any(isinstance(env.get(pn), T) and env[pn].kind == "phantom" and pn not in d["skip_tp"] for pn in d["tparams"]) and sampleable and len(fs) >= 2:
+                s.add("placeholder_registered_through_a_parameter")
+
+        def below_top(t, top=True):
+            if t.kind == "phantom" and not top:
+                return True
+            return any(below_top(a, False) for a in t.args)
+        for l in lists:
+            live = [f for f in l if not f["skip"]]
+            for i, f in enumerate(live):
+                if f["ft"].kind not in ("phantom", "tuple") and below_top(f["ft"]) and i + 1 < len(live) and sampleable:
+                    s.add("placeholder_registered_through_a_member")
+        if d["skip_tp"]:
+            s.add("skip_type_params")
+        if d["docs"]:
+            s.add("docs")
+        if d["capture"] in ("always", "ALWAYS"):
+            s.add("capture_always")
+        if d["capture"] == "never":
+            s.add("capture_never")
+        if d.get("macro"):
+            s.add("macro")
+            if any(f["encoded_as"] for f in fs):
+                s.add("macro_encoded_as")
+            if any(f["compact"] for f in fs):
+                s.add("macro_compact")
+        if d["name"].startswith("r#"):
+            s.add("raw_name")
+        return s
+
+    # every generated corpus, whatever the seed, contains each of these shapes (value family = derives Encode too)
+    FLOOR_VALUE = ["field_skip", "compact", "compact_param", "encoded_as_qualified", "encoded_as_compact", "rename", "rename_with_codec_attr", "phantom_member", "phantom_then_real_member",
+                   "skip_then_real_member", "recursive", "user_type_named_phantomdata", "variant_skip", "variant_skip_and_index", "index", "discriminant_on_data_variant", "discriminant_fieldless",
+                   "discriminant_decides_index_of_data_variant", "discriminant_decides_index_of_unit_variant", "index_attribute_decides_index", "index_attribute_beats_discriminant",
+                   "variant_named", "variant_tuple", "struct_named", "struct_tuple", "struct_unit", "generic", "generic2", "lifetime", "const_param", "macro", "macro_encoded_as", "macro_compact",
+                   "bitvec_member", "member_docs", "paren", "ctor_bracearray", "ctor_constarray", "parameter_instantiated_with_PhantomData", "compact_wide",
+                   "placeholder_registered_through_a_parameter", "placeholder_registered_through_a_member",
+                   "leaf_string", "leaf_str_ref", "leaf_duration", "leaf_unit", "leaf_bool", "ctor_compact", "ctor_range", "ctor_rangeinc", "ctor_btreemap", "ctor_btreeset", "ctor_binaryheap",
+                   "ctor_vecdeque", "ctor_result", "ctor_option", "ctor_cow", "ctor_rc", "ctor_arc"] + ["leaf_" + x for x in PRIMS_U + PRIMS_I] + [
+                   "leaf_" + x for x in ["NonZeroU8", "NonZeroU16", "NonZeroU32", "NonZeroU64", "NonZeroU128", "NonZeroI8", "NonZeroI16", "NonZeroI32", "NonZeroI64", "NonZeroI128"]]
+    FLOOR_MIRROR = ["rename", "phantom_member", "lifetime", "lifetimes_related", "const_param", "replace_segment", "skip_type_params", "docs", "member_docs", "unnamed_member_docs", "capture_always",
+                    "capture_never", "macro", "user_type_named_phantomdata", "raw_name", "paren", "discriminant_fieldless", "index", "variant_skip", "generic2", "recursive",
+                    "replace_segment_that_occurs_twice", "replace_own_name", "replace_with_raw_identifier", "ctor_bracearray", "ctor_constarray", "parameter_instantiated_with_PhantomData",
+                    "leaf_lt_str", "leaf_lt_cow"]
+
     def generate(self):
         r = self.r
         n_defs = 400 if self.tier == "thorough" else 90
@@ -789,6 +977,29 @@ class DefGen:
             d = self.definition(m, value_mode)
             defs.append(d)
             by_mod.setdefault(tuple(m), []).append(d)
+        # coverage floor: keep generating, and keep a definition only if it brings a required shape that is still missing
+        have_v, have_m = set(), set()
+        for d in defs:
+            (have_v if d["value"] else have_m).update(self.shapes_of(d))
+        need_v = [x for x in self.FLOOR_VALUE if x not in have_v]
+        need_m = [x for x in self.FLOOR_MIRROR if x not in have_m]
+        attempts = 0
+        while (need_v or need_m) and attempts < 6000:
+            attempts += 1
+            m = r.choice(mods)
+            value_mode = bool(need_v) and (not need_m or r.random() < 0.6)
+            d = self.definition(m, value_mode)
+            sh = self.shapes_of(d)
+            need = need_v if value_mode else need_m
+            got = [x for x in need if x in sh]
+            if not got:
+                continue
+            for x in got:
+                need.remove(x)
+            self.stat("definitions_added_for_the_coverage_floor")
+            defs.append(d)
+            by_mod.setdefault(tuple(m), []).append(d)
+        self.stats["coverage_floor_missing"] = need_v + need_m
         # the largest enums the codec allows: 256 variants (indices 0..=255), next to 255 and to explicit indices counted down
         for name, n, rev in [("Big256", 256, False), ("Big255", 255, False), ("Big256Rev", 256, True)]:
             vs = []
